@@ -52,12 +52,23 @@ def tri_solid(a, b, c):
     return 2.0 * math.atan2(num, den)
 
 
+_APEX = [vec(lo, la) for lo, la in ((11.3, 17.9), (-73.1, 41.7), (127.9, -33.3), (-151.7, -58.9), (61.3, 71.3), (-17.7, -12.1),
+                                   (95.1, 8.3), (-110.9, 23.9), (171.1, 48.7), (33.7, -67.3), (-45.5, 64.1), (-131.3, -3.7))]
+
+
 def signed_area(vs):
-    """signed area (unit sphere) of the polygon through unit vectors vs; valid while the polygon stays within a
-    hemisphere-sized neighbourhood of its first vertex"""
+    """signed area (unit sphere, in (-2pi, 2pi]) of the polygon through unit vectors vs (edges: short great-circle arcs);
+    positive: counter-clockwise seen from outside.  Fan of signed triangles from an apex kept away from every vertex
+    and from every vertex's antipode (the fan sum is the area modulo the whole sphere)."""
+    apex = max(_APEX, key=lambda p: min(1.0 - abs(dot(p, v)) for v in vs))
     s = 0.0
-    for i in range(1, len(vs) - 1):
-        s += tri_solid(vs[0], vs[i], vs[i + 1])
+    n = len(vs)
+    for i in range(n):
+        s += tri_solid(apex, vs[i], vs[(i + 1) % n])
+    while s > 2 * math.pi:
+        s -= 4 * math.pi
+    while s <= -2 * math.pi:
+        s += 4 * math.pi
     return s
 
 
@@ -71,6 +82,25 @@ def winding(p, vs):
         den = dot(a, b) - dot(a, p) * dot(b, p)
         s += math.atan2(num, den)
     return s
+
+
+def arcs_cross(a, b, p, q):
+    """do the short great-circle arcs a-b and p-q cross (general position)"""
+    n1, n2 = cross(a, b), cross(p, q)
+    t = cross(n1, n2)
+    if dot(t, t) == 0.0:
+        return False
+    for sgn in (1.0, -1.0):
+        x = tuple(sgn * v for v in t)
+        if dot(cross(a, x), n1) > 0 and dot(cross(x, b), n1) > 0 and dot(cross(p, x), n2) > 0 and dot(cross(x, q), n2) > 0:
+            return True
+    return False
+
+
+def inside_parity(p, outside, vs):
+    """p is inside the ring iff the arc from p to a point known to be outside crosses the ring an odd number of times"""
+    n = len(vs)
+    return sum(1 for i in range(n) if arcs_cross(vs[i], vs[(i + 1) % n], p, outside)) % 2 == 1
 
 
 def far_points(ctr):
@@ -166,6 +196,64 @@ def orbit_swath(h, w, rng, ascending, flip_scan):
     return lons, lats
 
 
+def long_orbit_swath(h, w, rng, direction, flip_scan, span_deg, half_deg):
+    """a long, narrow swath: [span_deg] degrees of arc along an inclined orbit, 2*half_deg wide"""
+    inc = math.radians(rng.choice([98.7, 81.3, 65.0, 40.0]))
+    node = math.radians(rng.uniform(-180, 180))
+    t0 = rng.uniform(0, 2 * math.pi)
+    dt = direction * math.radians(span_deg) / (h - 1)
+    half = math.radians(half_deg)
+    n_ = (math.cos(node), math.sin(node), 0.0)
+    m_ = (-math.sin(node) * math.cos(inc), math.cos(node) * math.cos(inc), math.sin(inc))
+    lons, lats = [], []
+    for r in range(h):
+        t = t0 + r * dt
+        s = tuple(math.cos(t) * n_[i] + math.sin(t) * m_[i] for i in range(3))
+        v = tuple(-math.sin(t) * n_[i] + math.cos(t) * m_[i] for i in range(3))
+        cr = cross(s, v)
+        lo_row, la_row = [], []
+        for c in range(w):
+            th = (-half + 2 * half * c / (w - 1)) * (-1 if flip_scan else 1)
+            p = tuple(math.cos(th) * s[i] - math.sin(th) * cr[i] for i in range(3))
+            lo_row.append(math.degrees(math.atan2(p[1], p[0])))
+            la_row.append(math.degrees(math.asin(max(-1.0, min(1.0, p[2])))))
+        lons.append(lo_row)
+        lats.append(la_row)
+    return lons, lats
+
+
+def gen_long(ctx):
+    """geometries with a side longer than half a great circle (long but narrow: footprint far below a hemisphere)"""
+    r = ctx.rng
+    out = []
+    combos = [(d, fl, tr) for d in (1, -1) for fl in (False, True) for tr in (False, True)]
+    spans = [270.0, 300.0, 200.0, 225.0, 180.0, 150.0, 330.0, 185.0]
+    reps = ctx.n(2, 8)
+    for rep_i in range(reps):
+        for j, (d, fl, tr) in enumerate(combos):
+            span = spans[(j + rep_i * 3) % len(spans)] if rep_i else (270.0 if j % 2 == 0 else 300.0)
+            h, w = r.randint(100, 150), r.randint(3, 5)
+            lons, lats = long_orbit_swath(h, w, r, d, fl, span, r.uniform(0.6, 1.2))
+            if tr:
+                lons, lats = orient(lons, 4), orient(lats, 4)
+            v = r.choice([None, None, r.randint(30, 60), max(h, w) + 5])
+            out.append({"kind": "swath", "tag": "long_orbit%d_%s%s%s" % (round(span), "fwd" if d > 0 else "bwd", "_flip" if fl else "", "_transposed" if tr else ""),
+                        "key": "long_side", "lons": lons, "lats": lats, "vps": v, "dask": False, "xarray": False, "true_cw": None})
+    # wide lon/lat grids along the equator, all 8 array orientations (transposed: the long side is a column)
+    for rep_i in range(ctx.n(1, 4)):
+        for k in range(8):
+            n_lon, n_lat = r.randint(110, 150), r.randint(3, 5)
+            span = r.choice([270.0, 300.0, 200.0]) if rep_i else 270.0
+            lon0, lat0 = r.uniform(-179.0, 179.0), r.uniform(0.5, 1.5)
+            dlon, dlat = span / (n_lon - 1) * 0.99731, r.uniform(0.3, 0.6) * 1.0137
+            lons = [[((lon0 + c * dlon + 180.0) % 360.0) - 180.0 for c in range(n_lon)] for _ in range(n_lat)]
+            lats = [[lat0 - rr * dlat for _ in range(n_lon)] for rr in range(n_lat)]
+            v = r.choice([None, r.randint(40, 70)])
+            out.append({"kind": "swath", "tag": "long_grid%d" % round(span), "key": "long_side", "k": k, "lons": orient(lons, k), "lats": orient(lats, k),
+                        "vps": v, "dask": False, "xarray": False, "true_cw": bin(k).count("1") % 2 == 0})
+    return out
+
+
 def gen_cases(ctx):
     r = ctx.rng
     c = {}
@@ -234,6 +322,7 @@ def gen_cases(ctx):
         v = r.choice([None, 2, 3, r.randint(2, 12), r.randint(2, 40), min(h, w) + 1, max(h, w) + 2])
         rings.append({"kind": "area", "tag": "area_" + name + ("_flip%d" % fk if fk else ""), "proj": CRS[name],
                       "shape": [h, w], "extent": ext, "vps": v, "want_lonlats": True, "true_cw": None})
+    rings += gen_long(ctx)
     c["rings"] = rings
     # ---- NaN filtering (encoded north-up swaths with invalid edge pixels)
     nanc = []
@@ -425,7 +514,7 @@ def run(ctx):
                 if key in table:
                     dup = True
                 table[key] = (rr, cc)
-        kindkey = g["tag"].split("_")[0]
+        kindkey = g.get("key") or g["tag"].split("_")[0]
         beyond = v is not None and v > min(h, w)
         ctx.count("ring_%s_%s" % (kindkey, "vps_none" if v is None else "vps_beyond_side" if beyond else "vps_within"))
         if dup or any(not math.isfinite(x) for row in lons for x in row):
@@ -524,12 +613,31 @@ def run(ctx):
                     inner = []
             if len(inner) > 60:
                 inner = ctx.rng.sample(inner, 60)
-            bad_in = [p for p in inner if abs(winding(vec(lons[p[0]][p[1]], lats[p[0]][p[1]]), ring) + 2 * math.pi) > 1e-3]
+            ctr = vec(lons[h // 2][w // 2], lats[h // 2][w // 2])
+            far = far_points(ctr)
+            if kindkey == "long_side":
+                # the ring may contain antipodal pairs, for which the winding sum is 0: count crossings towards a point that is
+                # at least 10 degrees away from every pixel instead (the footprint is within a pixel spacing of the pixels)
+                step = max(1, (h * w) // 400)
+                allpix = [vec(lons[rr][cc], lats[rr][cc]) for rr in range(h) for cc in range(w)][::step] + ring
+                # generic directions only: the antipode of a pixel lies on the pixel's own scan line / track
+                far = [q for base in (ctr, ring[0], ring[len(ring) // 3]) for p in far_points(base)[1:] for q in (p, tuple(-x for x in p))]
+                far = [p for p in far if max(dot(p, q) for q in allpix) < math.cos(math.radians(10.0))]
+                def is_inside(x):
+                    """majority over three outside reference points (an arc may graze a ring vertex)"""
+                    refs = [q for q in far if abs(dot(x, q)) < 0.95][:3]
+                    return None if len(refs) < 3 else sum(inside_parity(x, q, ring) for q in refs) >= 2
+                bad_in = [p for p in inner if is_inside(vec(lons[p[0]][p[1]], lats[p[0]][p[1]])) is False]
+                if any(is_inside(p) for p in far):
+                    ctx.add_failure("C16.footprint.outside", "%s: a point more than 10 degrees away from every pixel counts as inside" % what, rep)
+                    continue
+                far = []
+            else:
+                bad_in = [p for p in inner if abs(winding(vec(lons[p[0]][p[1]], lats[p[0]][p[1]]), ring) + 2 * math.pi) > 1e-3]
             if bad_in:
                 ctx.add_failure("C16.footprint.inside", "%s: interior pixel centre %s is not inside the ring" % (what, bad_in[0]), rep)
                 continue
-            ctr = vec(lons[h // 2][w // 2], lats[h // 2][w // 2])
-            if a_ref < 1.0 and any(winding(p, ring) < -math.pi for p in far_points(ctr)):
+            if a_ref < 1.0 and any(winding(p, ring) < -math.pi for p in far):
                 ctx.add_failure("C16.footprint.outside", "%s: a point a quarter of the globe (or more) away counts as inside" % what, rep)
                 continue
         L.append("(mkRing %d %d %s %s %s %s %s %s %s)" % (h, w, vpsl(v), "true" if cw else "false", sidesl(su), sidesl(sf),
